@@ -28,6 +28,9 @@ CLAIMS = {
     "C08": ("other",
             "P: make_N_invariants executed on symbolic complex coefficient vectors — for every degree (symbolic loop index) the slice read is exactly [l^2,(l+1)^2), and for L<=3 instances N_l^2 equals the block sum of |c|^2 (certificates). G: every Clebsch-Gordan value the bispectrum can request up to l_max 12 (23 thorough) equals the exact Racah value; count and order of invariants for l_max 0..12. B: rotation invariance of N, P and power spectrum on seeded band-limited functions rotated by exact resampling (real and complex transforms), per-coefficient locality of N. Rotation invariance of the bispectrum expression itself is a cited theorem, the compiled kernel is only reached through run-time checks, hence level 'other'.",
             "bispectrum theorem; compiled Cython kernel tied to its source only by run-time conformance; SHT exactness (C07)"),
+    "C03": ("proof",
+            "extent.complete: for every invertible cell, radius, centre and atom image, an image within the radius lies inside the cell bounds the real atoms_in_radius passes to slab — the real statements are executed symbolically up to the slab call and the argument is discharged in small steps (offset identity by certificate, extent = r|a*_i| from the sqrt axioms, Cauchy-Schwarz as Lagrange identity, integer floor/ceil step in linear arithmetic); frame obligations show all multi-centre queries use the same extent and accumulate it over centres; slab layout and ball bookkeeping on symbolic instances with an exact KD-tree model (selected <=> within radius, same index vector on every array). All query functions against brute-force periodic search on oblique generated crystals is the bounded stand-in.",
+            "scipy cKDTree exactness assumed; floats as reals; unit-cell atom list from C01; multi-centre functions carried by frame obligations + bounded runs rather than their own VCs"),
 }
 
 NA_PENDING = "check not built yet in this session (see DESIGN.md section 8 build order)"
